@@ -40,12 +40,13 @@ VARIABLES st,      \* r -> "new" | "queued" | "sent" | "resp" | "err" | "done" |
           ret,     \* ghost: r -> number of times handed back
           early,   \* ghost: r -> a valid reply with r's id was read from the stream while r was still waiting to be sent
           arrived, \* ghost: r -> a valid status-0 reply with r's id was read from the stream while r was "sent"
+          cap,     \* the request cache size in force: N at first; KSI_AsyncService_setOption may enlarge it while requests are outstanding
           pushed,  \* the configuration slot holds an unsolicited (pushed) configuration that has not been handed to the caller yet
           cfg,     \* the configuration value held by the slot's handle (0 = none): the answer to the configuration request, or the LATEST push
           xdone,   \* HTTP, environment: requests whose exchange has completed (each exchange completes at most once)
           out      \* observation: what the last public call returned
 
-vars == <<st, id, addT, sndT, cause, sigok, sendq, respq, wire, conn, connT, rStart, rCount, peer, pollm, openm, clock, usedIds, ret, arrived, early, pushed, cfg, xdone, out>>
+vars == <<st, id, addT, sndT, cause, sigok, sendq, respq, wire, conn, connT, rStart, rCount, peer, pollm, openm, clock, usedIds, ret, arrived, early, pushed, cfg, cap, xdone, out>>
 
 Live == {"queued", "sent", "resp", "err"}
 Outstanding(s) == {r \in Reqs : s[r] \in Live}
@@ -59,7 +60,7 @@ Init == /\ st = [r \in Reqs |-> "new"] /\ id = [r \in Reqs |-> 0]
         /\ conn = "none" /\ connT = 0 /\ rStart = -1000 /\ rCount = 0
         /\ peer = "open" /\ pollm = "ready" /\ openm = "ok" /\ clock = 0
         /\ usedIds = {} /\ ret = [r \in Reqs |-> 0] /\ arrived = [r \in Reqs |-> FALSE] /\ early = [r \in Reqs |-> FALSE]
-        /\ xdone = {} /\ pushed = FALSE /\ cfg = 0
+        /\ xdone = {} /\ pushed = FALSE /\ cfg = 0 /\ cap = N
         /\ out = [op |-> "init"]
 
 (* ------------------------------------------------------------------ Add *)
@@ -81,7 +82,7 @@ Add(r, newId) ==
                      /\ pushed' = FALSE /\ cfg' = 0
                      /\ out' = [op |-> "add", r |-> r, rc |-> "OK", id |-> 0]
                      /\ UNCHANGED <<id, usedIds>>
-         ELSE IF Cardinality(Outstanding(st) \ ConfReqs) = N
+         ELSE IF Cardinality(Outstanding(st) \ ConfReqs) = cap
          THEN /\ st' = [st EXCEPT ![r] = "refused"]
               /\ out' = [op |-> "add", r |-> r, rc |-> "FULL", id |-> 0]
               /\ UNCHANGED <<id, addT, sendq, usedIds, pushed, cfg>>
@@ -93,7 +94,11 @@ Add(r, newId) ==
               /\ usedIds' = usedIds \cup {newId}
               /\ out' = [op |-> "add", r |-> r, rc |-> "OK", id |-> newId]
               /\ UNCHANGED <<pushed, cfg>>
-    /\ UNCHANGED <<sndT, cause, sigok, respq, wire, conn, connT, rStart, rCount, peer, pollm, openm, clock, ret, arrived, early, xdone>>
+    /\ UNCHANGED <<sndT, cause, sigok, respq, wire, conn, connT, rStart, rCount, peer, pollm, openm, clock, ret, arrived, early, xdone, cap>>
+
+(* KSI_AsyncService_setOption(KSI_ASYNC_OPT_REQUEST_CACHE_SIZE): the cache grows; every outstanding request stays what and where it is *)
+Grow(k) == /\ k > cap /\ cap' = k /\ out' = [op |-> "grow"]
+           /\ UNCHANGED <<st, id, addT, sndT, cause, sigok, sendq, respq, wire, conn, connT, rStart, rCount, peer, pollm, openm, clock, usedIds, ret, arrived, early, pushed, cfg, xdone>>
 
 (* ------------------------------------------------------------------ Run, as a pipeline over a record *)
 Rec == [st |-> st, sndT |-> sndT, cause |-> cause, sigok |-> sigok, sendq |-> sendq, respq |-> respq, wire |-> wire,
@@ -264,10 +269,10 @@ Run(h) ==
     LET S == AfterRun IN
     /\ IF SlotFinished(S) # {} THEN h \in SlotFinished(S) ELSE IF Finished(S) = {} THEN h = 0 ELSE h \in Finished(S)
     /\ Commit(S, h)
-    /\ UNCHANGED <<id, addT, pollm, openm, clock, usedIds, xdone>>
+    /\ UNCHANGED <<id, addT, pollm, openm, clock, usedIds, xdone, cap>>
 
 (* ------------------------------------------------------------------ environment *)
-Env == <<st, id, addT, sndT, cause, sigok, sendq, respq, conn, connT, rStart, rCount, usedIds, ret, arrived, early, pushed, cfg>>
+Env == <<st, id, addT, sndT, cause, sigok, sendq, respq, conn, connT, rStart, rCount, usedIds, ret, arrived, early, pushed, cfg, cap>>
 (* HTTP: the exchange of a request that has been handed to the transport completes (each exchange at most once; it may outlive its request) *)
 ExchangeCompletes(e) == /\ Http /\ sndT[e.x] >= 0 /\ e.x \notin xdone
                         /\ wire' = Append(wire, e) /\ xdone' = xdone \cup {e.x}
@@ -323,6 +328,6 @@ RealCause(r, c) ==
 CauseIsReal == /\ \A r \in Reqs : st[r] = "err" => RealCause(r, cause[r])
                /\ (out.op = "run" /\ out.h > 0 /\ out.hstate = "err") => RealCause(out.h, out.hcause)
 TypeOK == /\ \A r \in Reqs : st[r] \in {"new", "queued", "sent", "resp", "err", "done", "refused"}
-          /\ Cardinality(Outstanding(st) \ ConfReqs) <= N
+          /\ Cardinality(Outstanding(st) \ ConfReqs) <= cap /\ cap >= N
           /\ \A i \in DOMAIN sendq : sendq[i] \in Reqs
 =============================================================================
